@@ -184,7 +184,27 @@ class Exec:
             base = gf2.sym_word(("lfw", repr(syms[0])), w)
             k0 = v.get(1, 0)
             return base if not k0 else gf2.wadd(base, gf2.const_word(k0 & ((1 << w) - 1), w))[0]
+        if len(syms) == 1 and v[syms[0]] == 1 and not v.get(1, 0) and isinstance(syms[0], tuple) and syms[0][0] in ("quo", "rem") and p is not None:
+            for (qs, rs, sa, cb) in p.divs.values():
+                if syms[0] in (qs, rs) and cb & (cb - 1) == 0:
+                    base = self.word(sa, w, p)
+                    sh = cb.bit_length() - 1
+                    return gf2.wlshr(base, sh) if syms[0] == qs else gf2.wand(base, gf2.const_word(cb - 1, w))
         return [gf2.TOP] * w
+
+    @staticmethod
+    def _lengthlike(lf):
+        """only size parameters / remaining-length phis / their quotients: values that are counts, not data"""
+        return all(s_ == 1 or (isinstance(s_, tuple) and s_[0] in ("n", "hd", "quo", "rem")) for s_ in lf)
+
+    def _divmod(self, p, I, sa, cb, want_quo):
+        """x = cb * Q + R with fresh symbols Q >= 0 and 0 <= R < cb (recorded on the path)"""
+        key = (repr(sa), cb)
+        if key not in p.divs:
+            p.divs[key] = (("quo", I.id), ("rem", I.id), sa, cb)
+            p.conds.append(("ult", Lf({("rem", I.id): 1, 1: -cb}), True))
+        qs, rs, _, _ = p.divs[key]
+        return Lf.s(qs) if want_quo else Lf.s(rs)
 
     def subst(self, p, lf):
         """apply equalities known on the path (symbol == constant)"""
@@ -779,7 +799,7 @@ class Exec:
                             p.lfmem[(ob, of.const(), n)] = lfv
                     v = gf2.sym_word(("lf", repr(lfv)), 8 * n)
                     p.events.append(("store-lf", I.id, repr(self.subst(p, self.val(p, o[1]))), repr(self.subst(p, self.val(p, o[0])))))
-            self.store(p, ptr, self.word(v, 8 * n), n, I)
+            self.store(p, ptr, self.word(v, 8 * n, p), n, I)
             return
         if op in ("xor", "and", "or"):
             a, b = self.val(p, o[0]), self.val(p, o[1])
@@ -790,6 +810,10 @@ class Exec:
                     if m is not None and m >= 0 and (m & (m + 1)) == 0 and x.const() is None:
                         if all(c % (m + 1) == 0 for s_, c in x.items() if s_ != 1):
                             p.env[k] = Lf.c(x.get(1, 0) & m)
+                            return
+                        sx = self.subst(p, x)
+                        if m > 0 and sx.const() is None and self._lengthlike(sx):
+                            p.env[k] = self._divmod(p, I, sx, m + 1, False)
                             return
             a, b = self.word(a, w, p), self.word(b, w, p)
             p.env[k] = {"xor": gf2.wxor, "and": gf2.wand, "or": gf2.wor}[op](a, b)
@@ -804,7 +828,10 @@ class Exec:
             if not is_word(a) and op == "shl" and a.const() is None:
                 p.env[k] = Lf({s_: c * (1 << sc) for s_, c in a.items()})
                 return
-            a = self.word(a, w)
+            if not is_word(a) and op == "lshr" and self.subst(p, a).const() is None and 0 < sc < w and self._lengthlike(self.subst(p, a)):
+                p.env[k] = self._divmod(p, I, self.subst(p, a), 1 << sc, True)
+                return
+            a = self.word(a, w, p)
             p.env[k] = gf2.wshl(a, sc) if op == "shl" else (gf2.wlshr(a, sc) if op == "lshr" else gf2.washr(a, sc))
             return
         if op in ("zext", "sext", "trunc"):
@@ -832,13 +859,7 @@ class Exec:
                     p.env[k] = Lf.c(ca // cb if op == "udiv" else ca % cb)
                     return
                 if cb and cb > 0:
-                    # x = cb * Q + R with fresh symbols Q >= 0 and 0 <= R < cb (recorded on the path)
-                    key = (repr(sa), cb)
-                    if key not in p.divs:
-                        p.divs[key] = (("quo", I.id), ("rem", I.id), sa, cb)
-                        p.conds.append(("ult", Lf({("rem", I.id): 1, 1: -cb}), True))
-                    qs, rs, _, _ = p.divs[key]
-                    p.env[k] = Lf.s(qs) if op == "udiv" else Lf.s(rs)
+                    p.env[k] = self._divmod(p, I, sa, cb, op == "udiv")
                     return
             p.env[k] = [gf2.TOP] * (I.bits or 64)
             return
@@ -848,7 +869,7 @@ class Exec:
                 p.env[k] = a.add(b, 1 if op == "add" else -1)
                 return
             w = I.bits
-            a, b = self.word(a, w), self.word(b, w)
+            a, b = self.word(a, w, p), self.word(b, w, p)
             if op == "add":
                 p.env[k] = gf2.wadd(a, b)[0]
             else:
